@@ -99,16 +99,17 @@ class Rig:
             def make(hid=hid, h=h):
                 def body(self_drv, event):
                     el = event.element
+                    actual = type(event).__name__
                     entry = {
-                        "h": hid, "inst": self_drv._verif_index, "ev": h["ev"], "el": el.name, "el_inst": el.vector.device._verif_index,
+                        "h": hid, "inst": self_drv._verif_index, "ev": actual, "el": el.name, "el_inst": el.vector.device._verif_index,
                         "new": getattr(event, "new_value", None), "old": getattr(event, "old_value", None),
                         "value_now": el._value, "published_now": len(rig.published),
                         "in_task": asyncio.current_task() is not rig.main_task,
                     }
                     rig.trace.append(entry)
-                    if h.get("veto"):
+                    if h.get("veto") and actual == "Write":
                         event.prevent_default = True
-                    if h["ev"] == "Read" and h.get("refresh") and not h["coro"]:
+                    if actual == "Read" and h.get("refresh") and not h["coro"]:
                         el.reset_value(py_value(kind, h["refresh"] - 1))
 
                 if h["coro"]:
@@ -118,7 +119,12 @@ class Rig:
                     def fn(self_drv, event):
                         body(self_drv, event)
                 fn.__name__ = f"handler{hid}"
-                return on([el_defs[i % 2] for i in sorted(set(h["on"]))], evcls[h["ev"]])(fn)
+                targets = [el_defs[i % 2] for i in sorted(set(h["on"]))]
+                fn = on(targets, evcls[h["ev"]])(fn)
+                if h.get("ev2") and h["ev2"] != h["ev"]:
+                    # the SAME function also subscribed to a second kind of event of the same elements (stacked decorators)
+                    fn = on(targets, evcls[h["ev2"]])(fn)
+                return fn
 
             dcts[h.get("level", 0) % 2][f"handler{hid}"] = make()
         Base = type("C14Base", (Driver,), dcts[0])
@@ -156,7 +162,7 @@ def handlers_for(case, ev, e, coro=None, cls="leaf"):
     for hid, h in enumerate(case["handlers"]):
         if cls == "base" and h.get("level", 0) % 2 == 1:
             continue  # declared on the derived class only
-        if h["ev"] == ev and (e % 2) in {i % 2 for i in h["on"]} and (coro is None or h["coro"] == coro):
+        if ev in (h["ev"], h.get("ev2")) and (e % 2) in {i % 2 for i in h["on"]} and (coro is None or h["coro"] == coro):
             out.append(hid)
     return out
 
@@ -245,7 +251,7 @@ def check_contract(case):
                     raise Failure("read-publishes", where)
                 continue
             # -- Write ---------------------------------------------------------------------
-            has_refresh = any(h["ev"] == "Read" and h.get("refresh") and not h["coro"] and (cls == "leaf" or h.get("level", 0) % 2 == 0) for h in case["handlers"])
+            has_refresh = any("Read" in (h["ev"], h.get("ev2")) and h.get("refresh") and not h["coro"] and (cls == "leaf" or h.get("level", 0) % 2 == 0) for h in case["handlers"])
             plain_w = handlers_for(case, "Write", e, coro=False, cls=cls) if t in ("client", "set_value") else []
             coro_w = handlers_for(case, "Write", e, coro=True, cls=cls) if t in ("client", "set_value") else []
             got_pw = [en for en in sync_trace if en["ev"] == "Write"]
@@ -495,6 +501,7 @@ handler_st = st.fixed_dictionaries(
         "on": st.lists(st.integers(0, 1), min_size=1, max_size=2),
         "level": st.integers(0, 1),
         "refresh": st.sampled_from([0, 0, 0, 1, 2]),
+        "ev2": st.sampled_from([None, None, None, "Write", "Change", "Read"]),
     }
 )
 op_st = st.fixed_dictionaries(
